@@ -44,7 +44,7 @@ MANIFEST = dict(
     technique="Coq forward-simulation proof (fuel induction, frame-generic invariant) + three-way model/implementation correspondence by vm_compute",
 )
 
-THEOREMS = ["C09_compile_correct", "C09_no_stuck_partial", "C09_expr_simulation", "C09_list_order", "C09_arg_order",
+THEOREMS = ["C09_compile_correct", "C09_no_stuck_partial", "C09_errors_partial", "C09_expr_simulation", "C09_list_order", "C09_arg_order",
             "C09_string_order", "C09_field_order", "C09_innermost_binding", "C09_funref_refuted"]
 ALLOWED_AXIOMS = []
 FUEL_REF = 600
